@@ -4,7 +4,7 @@
 
 use crate::haystack::val::{
     Bool, Column, Coord, Date, DateTime, Dict, Grid, List, Marker, Na, Number, Ref, Remove, Str,
-    Symbol, Time, Uri, Value, XStr, GRID_FORMAT_VERSION,
+    Symbol, Time, Uri, Value, XStr,
 };
 use chrono::SecondsFormat;
 use std::fmt::Display;
@@ -289,7 +289,9 @@ impl ZincEncode for Grid {
             writer.write_all(b"<<\n")?;
         }
 
-        writer.write_fmt(format_args!("ver:\"{GRID_FORMAT_VERSION}\""))?;
+        // The version this grid carries: a decoded grid keeps the version of its source
+        writer.write_all(b"ver:")?;
+        write_quoted_str(writer, &self.ver)?;
 
         // Grid meta, on the version line
         if let Some(meta) = &self.meta {
